@@ -345,6 +345,10 @@ def r06_5(ctx, m):
         for n in walk_own(f.node):
             if isinstance(n, ast.Subscript) and isinstance(n.ctx, ast.Load) and const_value(n.slice) in ("BO", "NO") and "tags" in norm(n.value):
                 readers.append((f, n))
+            if isinstance(n, ast.Call) and isinstance(n.func, ast.Attribute) and n.func.attr in ("get", "pop", "setdefault") and "tags" in norm(n.func.value) and n.args and const_value(n.args[0]) in ("BO", "NO"):
+                readers.append((f, n))
+            if isinstance(n, ast.Compare) and const_value(n.left) in ("BO", "NO") and any("tags" in norm(c) for c in n.comparators):
+                readers.append((f, n))
     ctx.check(not readers, "R06.5", m.dec.where(), f"no function in the ordering closure ({len(funcs)} functions) reads a BO or NO tag (earlier runs cannot influence the result)", key_of(m.dec, "reads-old-tags:" + ";".join(f"{f.qualname}:{norm(n)}" for f, n in readers)), closure=sorted(f.qualname for f in funcs), readers=[f"{f.qualname}: {norm(n)}" for f, n in readers])
     ctx.require_count("R06.5", len(funcs), 5, m.dec.where(), "functions in the ordering closure")
     # in the caller, both tags are stored unconditionally for every node of the component before the ordered write
